@@ -392,7 +392,7 @@ pub fn child(args: &[String]) -> i32 {
 
 pub fn run(tier: Tier) -> i32 {
     let rep = Report::new("C18", tier, "fault_enumeration");
-    rep.set_rule("fault enumeration on 6 generated voice files (about 2-4 kB: 2/3 streams, GV on/off, single-leaf and 3-leaf trees, quoted/unquoted leaves) and the bundled voice: singles = truncation (every byte offset on generated files; every section/range boundary +-1 and a 64-point lattice on V0), every header number replaced by each of 13 values, every header line deleted/duplicated/emptied, every range inverted, every pair of ranges swapped, tree/question/window tokens renamed or removed (every occurrence on generated files), every text byte of generated files replaced by each of 9 bytes, NUL/0xFF/partial-UTF-8 bytes in every header section, PDF count words overwritten; doubles (thorough; first generated file in quick) = all pairs of reduced header faults on different lines, reduced header fault x truncation (stride 7), reduced header fault x token fault; each case loaded via the real loader + VoiceSet + Condition::load_model in a child process (RLIMIT_AS 3 GiB, 20 s per case); distinct = distinct fault; non-trivial = faulted bytes differ from the base");
+    rep.set_rule("fault enumeration on 6 generated voice files (about 2-4 kB: 2/3 streams, GV on/off, single-leaf and 3-leaf trees, quoted/unquoted leaves) and the bundled voice: singles = truncation (every byte offset on generated files; every section/range boundary +-1 and a 64-point lattice on V0), every header number replaced by each of 13 values, every header line deleted/duplicated/emptied, every range inverted, every pair of ranges swapped, tree/question/window tokens renamed or removed (every occurrence on generated files), every text byte of generated files replaced by each of 9 bytes, NUL/0xFF/partial-UTF-8 bytes in every header section, PDF count words overwritten; doubles (thorough; first generated file in quick) = all pairs of reduced header faults on different lines, reduced header fault x truncation (stride 7), reduced header fault x token fault; each case loaded via the real loader + VoiceSet + Condition::load_model in a child process (RLIMIT_AS 3 GiB, 90 s per case); distinct = distinct fault; non-trivial = faulted bytes differ from the base");
     rep.assume("at most two simultaneous faults; V0's binary PDF payload is only truncated and overwritten at its count words");
     let b = bases();
     let outcomes: Mutex<BTreeMap<String, (u64, String)>> = Mutex::new(BTreeMap::new());
@@ -442,7 +442,7 @@ pub fn run(tier: Tier) -> i32 {
             let mut current: Option<usize> = None;
             let mut died = None;
             loop {
-                match rx.recv_timeout(std::time::Duration::from_secs(20)) {
+                match rx.recv_timeout(std::time::Duration::from_secs(90)) {
                     Ok(line) => {
                         let mut it = line.splitn(3, ' ');
                         match (it.next(), it.next().and_then(|x| x.parse::<usize>().ok())) {
@@ -467,7 +467,7 @@ pub fn run(tier: Tier) -> i32 {
                     }
                     Err(std::sync::mpsc::RecvTimeoutError::Timeout) => {
                         let _ = ch.kill();
-                        died = Some("timeout (20 s)");
+                        died = Some("timeout (90 s)");
                         break;
                     }
                     Err(std::sync::mpsc::RecvTimeoutError::Disconnected) => {
